@@ -157,8 +157,8 @@ theorem c39_idempotent_auth (f : σ → Msg → Inner σ ε) (st : St σ) (m : M
 
 /-- … space membership … -/
 theorem c39_idempotent_membership (f : σ → Msg → Inner σ ε) (st : St σ) (m : Msg) (hk : m.kind = .membership)
-    (hs : m.id ∈ st.seenSpace) : process f st m = (st, .ok []) := by
-  simp [process, rejected, guardHit, hk, hs]
+    (hp : m.pointsAtUnsupported = false) (hs : m.id ∈ st.seenSpace) : process f st m = (st, .ok []) := by
+  simp [process, rejected, guardHit, hk, hp, hs]
 
 /-- … key bundle … -/
 theorem c39_idempotent_keybundle (f : σ → Msg → Inner σ ε) (st : St σ) (m : Msg) (hk : m.kind = .keyBundle)
@@ -204,6 +204,18 @@ theorem c39_latest_only_guard_reemits :
     (re-extracted from p2panda-spaces/src/identity.rs on every run; the extraction fails for any other shape). -/
 theorem c39_keybundle_guard_compares_whole_registry_in_source :
     P2.Extracted.C39.keyBundleKnownCheck = "key_registry_y_i == key_registry_y" := rfl
+
+/-- A space-membership message whose `auth_message_id` points at a stored Promote / Demote auth message is routed
+    to an error before any handler runs — whatever the state and the inner handler (it can not reach the
+    `unimplemented!()` of the membership conversion). -/
+theorem c39_membership_pointer_to_unsupported_is_error (f : σ → Msg → Inner σ ε) (st : St σ) (m : Msg)
+    (hk : m.kind = .membership) (hp : m.pointsAtUnsupported = true) : process f st m = (st, .err) :=
+  c39_rejected_is_error f st m (by simp [rejected, hk, hp])
+
+/-- The lookup of the referenced auth message in `handle_space_membership_message` accepts supported actions only
+    (re-extracted from p2panda-spaces/src/manager.rs on every run). -/
+theorem c39_membership_pointer_guard_in_source :
+    P2.Extracted.C39.membershipPointerGuard = "if !is_unsupported_action(group_action)" := rfl
 
 /-! ## Non-vacuity -/
 
